@@ -41,7 +41,16 @@ func vSnapshot(rl *realm) vTables {
 func Harness_C10_Authorizer() {
 	z := &vAuthz{}
 	localAuthz := vBool("RequireLocalAuthz")
-	r := vNewRouter(&Config{RealmConfigs: []*RealmConfig{{URI: "realm1", AnonymousAuth: true, Authorizer: z, RequireLocalAuthz: localAuthz, AllowDisclose: true}}})
+	rc := RealmConfig{URI: "realm1", AnonymousAuth: true, Authorizer: z, RequireLocalAuthz: localAuthz, AllowDisclose: true}
+	cfg := &Config{}
+	if vBool("realm-from-template") {
+		// the realm is created at the first attach from the router's template
+		rc.URI = ""
+		cfg.RealmTemplate = &rc
+	} else {
+		cfg.RealmConfigs = []*RealmConfig{&rc}
+	}
+	r := vNewRouter(cfg)
 	a := vAttach(r, "realm1", nil, 64)
 	b := vAttach(r, "realm1", nil, 64)
 	vAssert("attached", a != nil && b != nil)
